@@ -10,8 +10,8 @@ For the ecocredit family every entry names
   gen     : list of (cfg, behaviours, depth) to simulate for the quick tier
 """
 
-ECO_GEN_Q = [("credits_g", 32, 20), ("market_g", 64, 25), ("basket_g", 32, 25), ("basket2_g", 24, 20), ("roles_g", 24, 20), ("bridge_g", 32, 20), ("params_g", 40, 20)]
-ECO_GEN_T = [("credits_g", 300, 30), ("market_g", 500, 30), ("basket_g", 300, 30), ("basket2_g", 200, 25), ("roles_g", 200, 25), ("bridge_g", 300, 25), ("params_g", 300, 25)]
+ECO_GEN_Q = [("credits_g", 32, 20), ("market_g", 64, 25), ("basket_g", 32, 25), ("basket2_g", 16, 20), ("basket3_g", 16, 20), ("roles_g", 24, 20), ("bridge_g", 32, 20), ("params_g", 40, 20)]
+ECO_GEN_T = [("credits_g", 300, 30), ("market_g", 500, 30), ("basket_g", 300, 30), ("basket2_g", 150, 25), ("basket3_g", 150, 25), ("roles_g", 200, 25), ("bridge_g", 300, 25), ("params_g", 300, 25)]
 
 PROFILES = [
     {"unit": "1000000", "render": 0},   # whole credits, plain decimals
